@@ -105,16 +105,19 @@ def lake_build(targets, clean=False):
     return p.returncode == 0, (p.stdout + p.stderr)
 
 
-def audit_axioms(module, theorems):
+def audit_axioms(modules, theorems):
     """returns dict theorem -> {'ok': bool, 'axioms': [...], 'error': str}"""
     res = {}
     if not theorems:
         return res
     d = os.path.join(LEAN_DIR, ".lake", "audit")
     os.makedirs(d, exist_ok=True)
-    path = os.path.join(d, f"Audit_{module.replace('.', '_')}_{os.getpid()}.lean")
+    if isinstance(modules, str):
+        modules = [modules]
+    path = os.path.join(d, f"Audit_{modules[0].replace('.', '_')}_{os.getpid()}.lean")
     with open(path, "w") as f:
-        f.write(f"import {module}\n")
+        for module in modules:
+            f.write(f"import {module}\n")
         for t in theorems:
             f.write(f"#print axioms {t}\n")
     p = subprocess.run(["lake", "env", "lean", path], cwd=LEAN_DIR, capture_output=True, text=True)
